@@ -184,3 +184,28 @@ pub fn check_writer_table<const N: usize>(raw: &[u8], kind: u8) -> Outcome {
     core::mem::forget(ok);
     Outcome::Pass
 }
+
+/// C19: two Start events in a row from a depth close to the preallocated 128 bytes: the indent buffer
+/// grows (re-allocating) in the first step and has to be extended again in the second; the indent never
+/// exceeds its buffer and a third markup event can be written. raw: [ch, size, slb, cur(2), probe(2)]
+pub fn check_indent_two_starts(raw: &[u8]) -> Outcome {
+    let mut r = Raw::new(raw);
+    let ch = r.u8();
+    let size = r.u8() as usize;
+    let slb = r.bool();
+    let cur = r.u16() as usize;
+    let probe = r.u16() as usize;
+    require!(size <= 9 && cur >= 120 && cur <= 128);
+    let mut ind = Writer::verif_with_indent_state(Sink::new(probe), ch, size, slb, cur, 128);
+    let a = ind.write_event(event_of(0, "v"));
+    let b = ind.write_event(event_of(0, "v"));
+    let (_, cur2, ilen2) = ind.verif_indent_state().unwrap();
+    ensure!(cur2 <= ilen2, "C19: the indent never exceeds its buffer");
+    let c = ind.write_event(event_of(4, "v"));
+    ensure!(a.is_ok() && b.is_ok() && c.is_ok(), "C19: indented write succeeds on a sink that never fails");
+    witness!(ilen2 > 128 && cur2 == cur + 2 * size, "indent buffer grown twice");
+    core::mem::forget(a);
+    core::mem::forget(b);
+    core::mem::forget(c);
+    Outcome::Pass
+}
